@@ -88,6 +88,10 @@ pub enum KSOneSampleAlternativeMethod {
 
 fn onesample_birnbaum_tingey_onesided_pvalue(d: f64, n: f64) -> f64 {
     // Birnbaum & Tingey (1951)
+    if d == 0.0 {
+        // the j = 0 term is d * d^-1 * (1 - d)^n: 0 * inf in floating point, 1 in the limit
+        return 1.0;
+    }
     let mut sum = 0.0;
     for j in 0..=(n * (1.0 - d)).floor() as u64 {
         sum += factorial::binomial(n as u64, j)
